@@ -156,6 +156,18 @@ def steered(tier, seed):
                             kw['error'] = lvl
                         parts = [pure_content(ma, na), pure_content(mb, n2)]
                         cases.append({'fn': 'make', 'content': enc_content(parts), 'kw': kw})
+    # every version x level at least once, whatever the tier (remainder bits, pad codewords of the big versions)
+    for v in R.ALL_VERSIONS:
+        for lvl in R.levels_of(v):
+            for mode in ('byte', 'numeric'):
+                if R.cci_bits(v, mode) is None:
+                    continue
+                mx = gens.max_len(v, lvl, mode)
+                for n in {max(1, mx - 3), max(1, mx // 2)}:
+                    kw = {'version': v, 'boost_error': False, 'mask': n % R.n_masks(v)}
+                    if lvl:
+                        kw['error'] = lvl
+                    cases.append({'fn': 'make', 'content': enc_content(pure_content(mode, n)), 'kw': kw})
     return cases
 
 
